@@ -37,6 +37,43 @@ def _cases(U):
             f = rand_tensor(U, (3,) * len(idx))
             return (tens(f), idx), {}, U.covd3(f, idx)
         add(f's_covd[{idx or "scalar"}]', 's_covd', mk)
+    # structured rank-2 arguments: code that tests its argument for a structure (symmetry, vanishing components) before taking
+    # a shortcut sees generic data as unstructured -- symmetric, antisymmetric and "diagonal + one off-diagonal component" tensors
+    def structured(f, pat):
+        f = f.copy()
+        if pat == 'sym':
+            for a in range(3):
+                for b in range(a):
+                    f[a, b] = f[b, a]
+        elif pat == 'antisym':
+            for a in range(3):
+                f[a, a] = f[a, a] * 0
+                for b in range(a):
+                    f[a, b] = -f[b, a]
+        else:
+            keep = (int(pat[-2]), int(pat[-1]))
+            for a in range(3):
+                for b in range(3):
+                    if a != b and (a, b) != keep:
+                        f[a, b] = f[a, b] * 0
+        return f
+    PATTERNS = ['sym', 'antisym'] + [f'diag+{a}{b}' for a in range(3) for b in range(3) if a != b]
+    for idx in ['uu', 'dd', 'ud', 'du']:
+        for pat in PATTERNS:
+            def mk(idx=idx, pat=pat):
+                f = structured(rand_tensor(U, (3, 3)), pat)
+                return (tens(f), idx), {}, U.covd3(f, idx)
+            add(f's_covd[{idx}|{pat}]', 's_covd', mk)
+
+            def mk(idx=idx, pat=pat):
+                f = structured(rand_tensor(U, (3, 3)), pat)
+                return (tens(f), idx), {}, CT.spec_s_div(U, f, idx)
+            add(f's_div[{idx}|{pat}]', 's_div', mk)
+    for pat in PATTERNS:
+        def mk(pat=pat):
+            f = structured(rand_tensor(U, (3, 3)), pat)
+            return (tens(f), 'dd'), {}, CT.spec_s_curl(U, f)
+        add(f's_curl[dd|{pat}]', 's_curl', mk)
     for idx in ['', 'u', 'd']:
         def mk(idx=idx):
             f = rand_tensor(U, (4,) * len(idx))
